@@ -312,7 +312,7 @@ def repo_test_inputs():
     return sorted(set(qs))
 
 
-def stage_texts(run, texts, observe=False, trace=False, name="texts", json=False):
+def stage_texts(run, texts, observe=False, trace=False, name="texts", with_json=False):
     inp = os.path.join(run.work, name + "_in.ndjson")
     with open(inp, "w") as f:
         for q in texts:
@@ -321,7 +321,7 @@ def stage_texts(run, texts, observe=False, trace=False, name="texts", json=False
     a = ["parse-texts", "-in", inp, "-out", res]
     if observe:
         a.append("-observe")
-    if json:
+    if with_json:
         a.append("-json")
     tr = None
     if trace:
@@ -341,7 +341,7 @@ def replay_case(run, rp):
     sub = Run(run.prop, run.tier, run.seed, replay=True)
     sub.work = run.sub("replay_%d" % len(os.listdir(run.work)))
     if rp["pipeline"] == "text":
-        res, _, _ = stage_texts(sub, [rp["q"]], observe=True, json=True)
+        res, _, _ = stage_texts(sub, [rp["q"]], observe=True, with_json=True)
         stage_judge_enum(sub, res, rp["prop"])
     elif rp["pipeline"] == "group":
         line = None
